@@ -332,7 +332,12 @@ func (r *ControllerFinder) getStatefulSetLikeWorkload(namespace string, ref *rol
 	}
 
 	key := types.NamespacedName{Name: ref.Name, Namespace: namespace}
-	set := GetEmptyWorkloadObject(schema.FromAPIVersionAndKind(ref.APIVersion, ref.Kind))
+	gvk := schema.FromAPIVersionAndKind(ref.APIVersion, ref.Kind)
+	if gvk.Group == ControllerKindRS.Group && gvk.Kind == ControllerKindRS.Kind {
+		// ReplicaSet is a known kind only for owner traversal, it is not a StatefulSet-like workload
+		return nil, nil
+	}
+	set := GetEmptyWorkloadObject(gvk)
 	if set == nil {
 		return nil, nil
 	}
